@@ -7,3 +7,10 @@ mod read_schema;
 
 pub use graphql_network_protocol::*;
 pub use read_schema::*;
+
+/// Verification hook (only under `cfg(kani)`, which `cargo kani` sets and which the verification
+/// drivers set explicitly): re-export of the crate-private query text printer.
+#[cfg(kani)]
+pub mod verif_hooks {
+    pub use crate::query_text::generate_query_text;
+}
